@@ -41,6 +41,7 @@ type TraceRule struct {
 	File  string
 	Line  int
 	Loop  int // 0 = whole function; k = one iteration of loop k
+	On    Expr // each EVENT[expr] ...: only events whose receiver / channel is (textually) the value of expr
 }
 
 type underLock struct {
@@ -652,6 +653,14 @@ func parseTrace(rest string) (*TraceRule, error) {
 			return nil, fmt.Errorf("expected: each EVENT satisfies EXPR")
 		}
 		tr.A = f[0]
+		if lb := strings.Index(tr.A, "["); lb > 0 && strings.HasSuffix(tr.A, "]") {
+			on, err := ParseExpr(tr.A[lb+1 : len(tr.A)-1])
+			if err != nil {
+				return nil, err
+			}
+			tr.On = on
+			tr.A = tr.A[:lb]
+		}
 		e, err := ParseExpr(strings.Join(f[2:], " "))
 		if err != nil {
 			return nil, err
